@@ -547,7 +547,20 @@ func execRedactPDUCheck(ver, ctor, ev, prep string) (string, []byte, []byte) {
 	if v.EventIDFormat() != gmsl.EventIDFormatV1 && !gjson.GetBytes(before, "event_id").Exists() {
 		eidOK = eid0 == eid1
 	}
-	vec := "json=" + bit01(string(after) == string(want)) + "|red=" + bit01(red1) + "|ids=" + bit01(ids0 == ids1) + "|eid=" + bit01(eidOK) +
+	idsOK := ids0 == ids1
+	if !idsOK && v.EventIDFormat() != gmsl.EventIDFormatV1 && gjson.GetBytes(before, "event_id").Exists() && v.DomainlessRoomIDs() {
+		// same contract: the room ID of a room-version-12 create event is its event ID with the sigil swapped, so it follows
+		// the ID such a trusted event re-reads from its `event_id` member; type, sender and state key must still agree
+		strip := func(t string) string {
+			p := strings.Split(t, "\x00")
+			if len(p) == 4 {
+				p[2] = ""
+			}
+			return strings.Join(p, "\x00")
+		}
+		idsOK = strip(ids0) == strip(ids1)
+	}
+	vec := "json=" + bit01(string(after) == string(want)) + "|red=" + bit01(red1) + "|ids=" + bit01(idsOK) + "|eid=" + bit01(eidOK) +
 		"|sig=" + bit01(!sig0 || sig1) + "|idem=" + bit01(idem)
 	if strings.Contains(vec, "=0") {
 		return "bad:" + vec, before, after
